@@ -1281,3 +1281,100 @@ func guardAtoms(fn *ssa.Function, start, target ssa.Instruction) []guardInfo {
 	}
 	return out
 }
+
+// ---------------------------------------------------------------------------
+// Defer-spilled results and captured parameters
+
+// unspill resolves a load of a local slot to the value stored into it most
+// recently in the same block before `at` (go/ssa spills named/deferred
+// results and captured parameters into Allocs).  Other values are returned unchanged.
+func unspill(v ssa.Value, at ssa.Instruction) ssa.Value {
+	ld, ok := v.(*ssa.UnOp)
+	if !ok || ld.Op != token.MUL {
+		return v
+	}
+	a, ok := ld.X.(*ssa.Alloc)
+	if !ok {
+		return v
+	}
+	// single-store slot (captured parameter): resolve regardless of block
+	var only ssa.Value
+	n := 0
+	for _, r := range *a.Referrers() {
+		if st, ok := r.(*ssa.Store); ok && st.Addr == a {
+			only = st.Val
+			n++
+		}
+	}
+	if n == 1 {
+		if _, isParam := only.(*ssa.Parameter); isParam {
+			return only
+		}
+	}
+	var last ssa.Value
+	for _, in := range at.Block().Instrs {
+		if in == at || in == ssa.Instruction(ld) {
+			if in == at {
+				break
+			}
+			continue
+		}
+		if st, ok := in.(*ssa.Store); ok && st.Addr == a {
+			last = st.Val
+		}
+	}
+	if last != nil {
+		return last
+	}
+	return v
+}
+
+// retResults returns the (unspilled) results of a Return.
+func retResults(rt *ssa.Return) []ssa.Value {
+	out := make([]ssa.Value, len(rt.Results))
+	for i, v := range rt.Results {
+		u := unspill(v, rt)
+		// the stored value may itself be a load of another slot (e.g. `return i, err`)
+		out[i] = unspill(u, rt)
+	}
+	return out
+}
+
+// realReturns: the Return instructions of fn except the one in the recover block.
+func realReturns(fn *ssa.Function) []*ssa.Return {
+	var out []*ssa.Return
+	for _, e := range exitsOf(fn) {
+		if rt, ok := e.(*ssa.Return); ok && rt.Block() != fn.Recover {
+			out = append(out, rt)
+		}
+	}
+	return out
+}
+
+// paramRoot resolves a field-path root through a spilled parameter slot.
+func paramRoot(v ssa.Value) (*ssa.Parameter, bool) {
+	if p, ok := v.(*ssa.Parameter); ok {
+		return p, true
+	}
+	if ld, ok := v.(*ssa.UnOp); ok && ld.Op == token.MUL {
+		v = ld.X
+	}
+	{
+		if a, ok := v.(*ssa.Alloc); ok {
+			var only ssa.Value
+			n := 0
+			for _, r := range *a.Referrers() {
+				if st, ok := r.(*ssa.Store); ok && st.Addr == a {
+					only = st.Val
+					n++
+				}
+			}
+			if n == 1 {
+				if p, ok := only.(*ssa.Parameter); ok {
+					return p, true
+				}
+			}
+		}
+	}
+	return nil, false
+}
